@@ -49,6 +49,7 @@ mod regexes;
 mod schemas;
 mod runtime;
 mod sites;
+mod hashsites;
 
 pub fn write_if_changed(p: &Path, content: &str) -> bool {
     if std::fs::read_to_string(p).ok().as_deref() == Some(content) { return false; }
@@ -67,6 +68,7 @@ fn main() {
     if let Some(t) = runtime::runtime(&mut ctx) { let ch = write_if_changed(&ctx.out.join("Runtime.lean"), &t); println!("GEN Runtime.lean {}", if ch { "rewritten" } else { "unchanged" }); }
     if let Some(t) = schemas::schemas(&mut ctx) { let ch = write_if_changed(&ctx.out.join("Schemas.lean"), &t); println!("GEN Schemas.lean {}", if ch { "rewritten" } else { "unchanged" }); }
     if let Some(t) = regexes::regexes(&mut ctx) { let ch = write_if_changed(&ctx.out.join("Regexes.lean"), &t); println!("GEN Regexes.lean {}", if ch { "rewritten" } else { "unchanged" }); }
+    if let Some(t) = hashsites::hashsites(&mut ctx) { let ch = write_if_changed(&ctx.out.join("HashSites.lean"), &t); println!("GEN HashSites.lean {}", if ch { "rewritten" } else { "unchanged" }); }
     for i in &ctx.items { println!("ITEM {i}"); }
     for b in &ctx.broken { println!("TIE-BROKEN {b}"); }
     if !ctx.broken.is_empty() { std::process::exit(3); }
